@@ -3,6 +3,7 @@ import GBModel.Eval
 import GBModel.OneElec
 import GBModel.TwoElec
 import GBModel.Forms
+import GBModel.Parsers
 /-!
 # Line protocol of the model executable
 
@@ -85,6 +86,21 @@ def one4 (t : Tab4 BM) : Tab (Tab4 BM) := tab 1 fun _ => t
 def boysBM (T : BM) (n : Nat) : Tab BM :=
   ⟨(BF.boysAll T.v n).map BM.ofBF, fun _ => Num.nat 0⟩
 
+def linesTok : P (List Parse.Line) := do
+  let n ← natTok
+  let ls ← rep n (do let k ← natTok; let ts ← rep k tok; pure ts.toList)
+  pure ls.toList
+
+def fmtParsed (r : Option (List (String × List Parse.ShellRec))) : String :=
+  match r with
+  | none => "err raises"
+  | some out =>
+    out.foldl (fun acc e =>
+      e.2.foldl (fun acc sh =>
+        acc ++ s!" {sh.l} {sh.exps.length} {sh.cols.length} " ++ " ".intercalate sh.exps
+          ++ (sh.cols.foldl (fun a c => a ++ " " ++ " ".intercalate c) ""))
+        (acc ++ s!" {e.1} {e.2.length}")) s!"ok {out.length}"
+
 def handle : P String := do
   let op ← tok
   match op with
@@ -165,6 +181,12 @@ def handle : P String := do
     match formOf name qs.toList ns.toList with
     | some f => pure ("ok " ++ f.canon.toStr)
     | none => pure "err unknown-form"
+  | "parse_nwchem" => do
+    let ls ← linesTok
+    pure (fmtParsed ((Parse.parseNw ls).map fun o => o.map fun e => (e.1, Parse.flatten e.2)))
+  | "parse_gbs" => do
+    let ls ← linesTok
+    pure (fmtParsed ((Parse.parseGbs ls).map fun o => o.map fun e => (e.1, Parse.flatten e.2)))
   | "boys" => do   -- T, mMax
     let t ← bfTok
     let mm ← natTok
